@@ -12,6 +12,7 @@ import (
 	"github.com/f1bonacc1/process-compose/src/pclog"
 	"github.com/f1bonacc1/process-compose/src/templater"
 	"github.com/f1bonacc1/process-compose/src/types"
+	"github.com/f1bonacc1/process-compose/src/verif"
 	"os"
 	"os/user"
 	"runtime"
@@ -65,6 +66,7 @@ func (p *ProjectRunner) init() {
 }
 
 func (p *ProjectRunner) Run() error {
+	verif.Block("lock:runProc", func() bool { return verifLockFree(&p.runProcMutex) })
 	p.runProcMutex.Lock()
 	p.runningProcesses = make(map[string]*Process)
 	p.runProcMutex.Unlock()
@@ -99,7 +101,9 @@ func (p *ProjectRunner) Run() error {
 		newConf := proc
 		p.runProcess(&newConf)
 	}
+	verif.Await("run:wg", func() bool { return verif.Counter("run:wg") == 0 })
 	p.waitGroup.Wait()
+	verif.Obs("run:returned %d", p.exitCode)
 	log.Info().Msg("Project completed")
 	if p.exitCode != 0 {
 		err = &ExitError{p.exitCode}
@@ -141,17 +145,25 @@ func (p *ProjectRunner) runProcess(config *types.ProcessConfig) {
 	)
 	p.addRunningProcess(process)
 	p.waitGroup.Add(1)
+	verif.Count("run:wg", 1)
+	verif.Spawn()
 	go func(proc *Process) {
+		verif.Begin("proc", proc.getName())
+		defer verif.End()
 		defer p.removeRunningProcess(proc)
 		defer p.waitGroup.Done()
+		defer verif.Count("run:wg", -1)
 		if err = p.waitIfNeeded(proc.procConf); err != nil {
 			log.Error().Msgf("Error: %s", err.Error())
 			log.Error().Msgf("Error: process %s won't run", proc.getName())
 			proc.wontRun()
+			verif.Yield("proc:skipped")
 			p.onProcessSkipped(proc.procConf)
 		} else {
 			exitCode := proc.run()
+			verif.Yield("proc:ran")
 			p.addDoneProcess(proc)
+			verif.Yield("proc:done-added")
 			p.onProcessEnd(exitCode, proc.procConf)
 		}
 	}(process)
@@ -160,6 +172,8 @@ func (p *ProjectRunner) runProcess(config *types.ProcessConfig) {
 func (p *ProjectRunner) waitIfNeeded(process *types.ProcessConfig) error {
 	for k := range process.DependsOn {
 		if proc := p.getDoneOrRunningProcess(k); proc != nil {
+			verif.Obs("dep %s %s found", process.ReplicaName, k)
+			verif.Yield("dep:lookup")
 			switch process.DependsOn[k].Condition {
 			case types.ProcessConditionCompleted:
 				proc.waitForCompletion()
@@ -187,6 +201,7 @@ func (p *ProjectRunner) waitIfNeeded(process *types.ProcessConfig) error {
 				proc.waitForStarted()
 			}
 		} else {
+			verif.Obs("dep %s %s none", process.ReplicaName, k)
 			log.Error().Msgf("Error: process %s depends on %s, but it isn't running or completed", process.ReplicaName, k)
 		}
 
@@ -199,6 +214,7 @@ func (p *ProjectRunner) onProcessEnd(exitCode int, procConf *types.ProcessConfig
 		procConf.RestartPolicy.ExitOnEnd {
 		_ = p.ShutDownProject()
 		p.exitCode = exitCode
+		verif.Obs("projexit %d", exitCode)
 	}
 }
 
@@ -206,6 +222,7 @@ func (p *ProjectRunner) onProcessSkipped(procConf *types.ProcessConfig) {
 	if procConf.RestartPolicy.ExitOnSkipped {
 		_ = p.ShutDownProject()
 		p.exitCode = 1
+		verif.Obs("projexit %d", 1)
 	}
 }
 
@@ -289,6 +306,7 @@ func (p *ProjectRunner) getProcessesStateData(filter filterFn) error {
 }
 
 func (p *ProjectRunner) addRunningProcess(process *Process) {
+	verif.Block("lock:runProc", func() bool { return verifLockFree(&p.runProcMutex) })
 	p.runProcMutex.Lock()
 	p.runningProcesses[process.getName()] = process
 	p.runProcMutex.Unlock()
@@ -301,6 +319,7 @@ func (p *ProjectRunner) addDoneProcess(process *Process) {
 }
 
 func (p *ProjectRunner) getRunningProcess(name string) *Process {
+	verif.Block("lock:runProc", func() bool { return verifLockFree(&p.runProcMutex) })
 	p.runProcMutex.Lock()
 	defer p.runProcMutex.Unlock()
 	if runningProc, ok := p.runningProcesses[name]; ok {
@@ -326,6 +345,7 @@ func (p *ProjectRunner) getDoneOrRunningProcess(name string) *Process {
 }
 
 func (p *ProjectRunner) removeRunningProcess(process *Process) {
+	verif.Block("lock:runProc", func() bool { return verifLockFree(&p.runProcMutex) })
 	p.runProcMutex.Lock()
 	delete(p.runningProcesses, process.getName())
 	p.runProcMutex.Unlock()
@@ -337,6 +357,7 @@ func (p *ProjectRunner) StartProcess(name string) error {
 		log.Error().Msgf("Process %s is already running", name)
 		return fmt.Errorf("process %s is already running", name)
 	}
+	verif.Yield("start:checked")
 	if processConfig, ok := p.project.Processes[name]; ok {
 		p.runProcess(&processConfig)
 	} else {
@@ -394,7 +415,10 @@ func (p *ProjectRunner) RestartProcess(name string) error {
 			log.Err(err).Msgf("failed to stop process %s", name)
 			return err
 		}
+		verif.Yield("restart:stopped")
+		verif.Park("restart:sleep")
 		time.Sleep(proc.getBackoff())
+		verif.Yield("restart:slept")
 	}
 
 	if processConfig, ok := p.project.Processes[name]; ok {
@@ -406,6 +430,7 @@ func (p *ProjectRunner) RestartProcess(name string) error {
 }
 
 func (p *ProjectRunner) GetProcessInfo(name string) (*types.ProcessConfig, error) {
+	verif.Block("lock:runProc", func() bool { return verifLockFree(&p.runProcMutex) })
 	p.runProcMutex.Lock()
 	defer p.runProcMutex.Unlock()
 	if processConfig, ok := p.project.Processes[name]; ok {
@@ -434,6 +459,7 @@ func (p *ProjectRunner) GetProcessPorts(name string) (*types.ProcessPorts, error
 }
 
 func (p *ProjectRunner) SetProcessPassword(name, pass string) error {
+	verif.Block("lock:runProc", func() bool { return verifLockFree(&p.runProcMutex) })
 	p.runProcMutex.Lock()
 
 	var wg sync.WaitGroup
@@ -451,6 +477,7 @@ func (p *ProjectRunner) SetProcessPassword(name, pass string) error {
 	}
 	p.runProcMutex.Unlock()
 	wg.Wait()
+	verif.Block("lock:runProc", func() bool { return verifLockFree(&p.runProcMutex) })
 	p.runProcMutex.Lock()
 	defer p.runProcMutex.Unlock()
 	for _, process := range p.runningProcesses {
@@ -488,18 +515,29 @@ func (p *ProjectRunner) shutDownInOrder(wg *sync.WaitGroup, shutdownOrder []*Pro
 	reverseDependencies := p.runningProcessesReverseDependencies()
 	for _, process := range shutdownOrder {
 		wg.Add(1)
+		verif.Count("sd:wg", 1)
+		verif.Spawn()
 		go func(proc *Process) {
+			verif.Begin("stopper", proc.getName())
+			defer verif.End()
+			defer verif.Count("sd:wg", -1)
 			defer wg.Done()
 			waitForDepsWg := sync.WaitGroup{}
 			if revDeps, ok := reverseDependencies[proc.getName()]; ok {
 				for _, runningProc := range revDeps {
 					waitForDepsWg.Add(1)
+					verif.Count("dep:wg:"+proc.getName(), 1)
+					verif.Spawn()
 					go func(pr *Process) {
+						verif.Begin("depwaiter", proc.getName()+"<"+pr.getName())
+						defer verif.End()
+						defer verif.Count("dep:wg:"+proc.getName(), -1)
 						pr.waitForCompletion()
 						waitForDepsWg.Done()
 					}(runningProc)
 				}
 			}
+			verif.Await("shutdown:depwg", func() bool { return verif.Counter("dep:wg:"+proc.getName()) == 0 })
 			waitForDepsWg.Wait()
 			log.Debug().Msgf("[%s]: waited for all dependencies to shut down", proc.getName())
 
@@ -525,17 +563,25 @@ func (p *ProjectRunner) shutDownAndWait(shutdownOrder []*Process) {
 				continue
 			}
 			wg.Add(1)
+			verif.Count("sd:wg", 1)
+			verif.Spawn()
 			go func(pr *Process) {
+				verif.Begin("waiter", pr.getName())
+				defer verif.End()
+				defer verif.Count("sd:wg", -1)
 				pr.waitForCompletion()
 				wg.Done()
 			}(proc)
 		}
 	}
 
+	verif.Await("shutdown:wg", func() bool { return verif.Counter("sd:wg") == 0 })
 	wg.Wait()
 }
 
 func (p *ProjectRunner) ShutDownProject() error {
+	verif.Yield("shutdown:enter")
+	verif.Block("lock:runProc", func() bool { return verifLockFree(&p.runProcMutex) })
 	p.runProcMutex.Lock()
 	defer p.runProcMutex.Unlock()
 
@@ -562,12 +608,15 @@ func (p *ProjectRunner) ShutDownProject() error {
 		nameOrder = append(nameOrder, v.getName())
 	}
 	log.Debug().Msgf("Shutting down %d processes. Order: %q", len(shutdownOrder), nameOrder)
+	verif.Obs("shutdown:order %q", nameOrder)
 	for _, proc := range shutdownOrder {
 		proc.prepareForShutDown()
 	}
+	verif.Yield("shutdown:prepared")
 
 	p.shutDownAndWait(shutdownOrder)
 	p.cancelAppFn()
+	verif.Obs("shutdown:returned")
 	return nil
 }
 
@@ -707,13 +756,19 @@ func (p *ProjectRunner) scaleDownProcess(name string, scale int) {
 	wg := sync.WaitGroup{}
 	for _, name := range toRemove {
 		wg.Add(1)
+		verif.Count("scale:wg", 1)
+		verif.Spawn()
 		go func(name string) {
+			verif.Begin("remover", name)
+			defer verif.End()
+			defer verif.Count("scale:wg", -1)
 			defer wg.Done()
 			if err := p.removeProcess(name); err != nil {
 				log.Err(err).Msgf("failed to scale down process %s", name)
 			}
 		}(name)
 	}
+	verif.Await("scale:wg", func() bool { return verif.Counter("scale:wg") == 0 })
 	wg.Wait()
 }
 
